@@ -22,7 +22,7 @@ import tempfile
 import zlib
 from concurrent.futures import ThreadPoolExecutor
 
-from common import coqrun, enc, scenario
+from common import collectives, coqrun, enc, scenario
 
 ID = "C14"
 MANIFEST = {
@@ -127,6 +127,8 @@ def gen_opts(r):
 
 def write_scn(r, d, names=None, **kw):
     s = scenario.gen_scenario(r, **kw)
+    if s.ranks >= 2 and r.random() < 0.5:
+        collectives.add_chain_allreduce(r, s, n_groups=r.choice([1, 2]))
     if names:   # rename the files (job ids derive from the path string)
         s.files = {names[i]: v for i, (k, v) in enumerate(s.files.items())}
     os.makedirs(os.path.join(d, "in"), exist_ok=True)
